@@ -339,6 +339,19 @@ def expand_combinators(prog, e, depth=4):
             return x
         if x[0] == "call" and isinstance(x[1], str) and len(x) >= 3 and d > 0:
             args = tuple(go(a, d) for a in x[2])
+            if re.search(r"^core::option::Option::<T>::or_else$", x[1]) and len(args) == 2:
+                # Option::or_else(o, F) -> phi(o | F())   (o when it is Some, else what F gives)
+                fv = apply0(args[1])
+                if fv is not None:
+                    out = alts_of(args[0]) + [go(v, d - 1) for v in fv]
+                    flat_ = []
+                    for o in out:
+                        flat_.extend(alts_of(o))
+                    uniq = []
+                    for o in flat_:
+                        if o not in uniq:
+                            uniq.append(o)
+                    return uniq[0] if len(uniq) == 1 else ("phi", tuple(uniq))
             m2 = re.search(r"^core::option::Option::<T>::(map_or_else|map_or|unwrap_or_else)$", x[1])
             if m2 and args:
                 # Option::map_or_else(o, D, F) -> phi(D() | F(o.@Some.0));  map_or(o, d, F) -> phi(d | F(..));
